@@ -148,6 +148,9 @@ def compute(fn: str, spec: Dict[str, Any], site: Optional[str], args: Tuple[Any,
             "a": term(fn + "#a", full, kwargs),
             "b": [term(fn + "#b0", full, kwargs), (term(fn + "#b10", full, kwargs), term(fn + "#b11", full, kwargs))],
         }
+    if kind == "mlist":
+        t = term(fn, full, kwargs)
+        return [t + (op,)] if spec.get("stamp") else [t]
     if kind == "str":
         return "s" + term(fn, full, kwargs)[1][:4]
     if kind == "grid":
@@ -297,6 +300,15 @@ def _ret_eval(ret: Any, env: Dict[str, Any], ev: Callable[[Any, Dict[str, Any]],
         return [ev(x, env) for x in ret[1]]
     if k == "D":
         return {kk: ev(x, env) for kk, x in ret[1].items()}
+    if k == "NT":
+        # `return Stats(low=a, high=b)`: a namedtuple IS a tuple (the DAG returns an equal tuple)
+        import collections
+
+        return collections.namedtuple("RT", [f"f{i}" for i in range(len(ret[1]))])(*[ev(x, env) for x in ret[1]])
+    if k == "OD":
+        import collections
+
+        return collections.OrderedDict((kk, ev(x, env)) for kk, x in ret[1].items())
     raise ValueError(ret)
 
 
@@ -383,6 +395,30 @@ def config_dict(P: Dict[str, Any], by: str = "tag") -> Dict[str, Any]:
             spec = P["fns"][st["fn"]]
             nodes[st["site"].lstrip(MARK)] = {"priority": spec.get("prio", 0), "is_sequential": bool(spec.get("seq"))}
     return {"nodes": nodes}
+
+
+def group_config(P: Dict[str, Any]) -> Tuple[Dict[str, Any], Dict[str, Any]]:
+    """The same configuration, but call sites whose attributes are equal share ONE entry, keyed by a tag that all
+    of them carry (tawazi applies an entry given for a tag to every node that has the tag).  Returns (a copy of P
+    whose sites carry the group tags, the configuration)."""
+    import copy as _copy
+
+    P2 = _copy.deepcopy(P)
+    groups: Dict[Tuple[int, bool], List[Dict[str, Any]]] = {}
+    for st in P2["body"]:
+        if st["k"] == "call":
+            spec = P2["fns"][st["fn"]]
+            groups.setdefault((spec.get("prio", 0), bool(spec.get("seq"))), []).append(st)
+    nodes: Dict[str, Any] = {}
+    for k, ((prio, seq), sts) in enumerate(sorted(groups.items(), key=lambda kv: (kv[0][0], kv[0][1]))):
+        entry = {"priority": prio, "is_sequential": seq}
+        if len(sts) >= 2:
+            for st in sts:
+                st["tags"] = list(st.get("tags") or []) + [f"grp{k}"]
+            nodes[f"grp{k}"] = entry
+        else:
+            nodes[sts[0]["site"].lstrip(MARK)] = entry
+    return P2, {"nodes": nodes}
 
 
 # ---------------------------------------------------------------------------- reference interpretation
